@@ -511,7 +511,10 @@ def _choose_one_hash(hash_dict):
     elif "SHA-512" in hash_dict:
         return {"SHA-512": hash_dict["SHA-512"]}
     else:
-        k = next(iter(hash_dict), None)
+        # None of the preferred algorithms is present: take the hash whose
+        # algorithm name sorts first, so that the choice (and the ID derived
+        # from it) does not depend on dictionary order.
+        k = min(hash_dict, default=None)
         if k is not None:
             return {k: hash_dict[k]}
 
